@@ -286,6 +286,10 @@ def run(prog: Program, chk: Check):
         # to that destination only
         odefs = [n.value for n in walk_local(sf.node) if isinstance(n, ast.Assign) and any(path_of(t) == oh for t in n.targets)]
         fresh = len(odefs) == 1 and isinstance(odefs[0], ast.Call) and not odefs[0].args and not odefs[0].keywords
+        # ... built with the manager's configured header class: the notice travels on connections framed with that layout
+        N.decide(len(odefs) == 1 and isinstance(odefs[0], ast.Call) and norm(odefs[0].func) in ("self.header_cls", "self._header_cls"), fkey(sf, "notice-header-layout"), where(sf),
+                 "the notice header is an instance of self.header_cls", "the FAILED_MESSAGE header is not built from the manager's configured header class: "
+                 + ("; ".join(norm(o)[:60] for o in odefs) or "no construction found") + " (with the timecode layout every receiver of the notice loses frame sync)")
         if okpub and not fresh:
             zeroed = {t.attr for n in walk_local(sf.node) if isinstance(n, ast.Assign) and isinstance(n.value, ast.Constant) and n.value.value == 0
                       for t in n.targets if isinstance(t, ast.Attribute) and path_of(t.value) == oh}
